@@ -7,6 +7,7 @@ import PyProb.Driver.Expanding
 import PyProb.Driver.CMS
 import PyProb.Driver.Cuckoo
 import PyProb.Driver.QF
+import PyProb.Driver.OnDisk
 
 namespace PyProb.Drv
 open PyProb
@@ -97,6 +98,7 @@ def step (st : St) (line : String) : St × String :=
                 else if cmd.startsWith "cm." then stepCMS st cmd h args
                 else if cmd.startsWith "ck." then stepCuckoo st cmd h args
                 else if cmd.startsWith "qf." then stepQF st cmd h args
+                else if cmd.startsWith "od." then stepOnDisk st cmd h args
                 else if cmd.startsWith "xb." || cmd.startsWith "rb." then stepExpanding st cmd h args
                 else (st, "bad-op")
         | [] => (st, "bad-op")
